@@ -1,0 +1,9 @@
+//go:build verif
+// +build verif
+
+package output
+
+import "time"
+
+// VerifSetFrame sets the redraw interval of the cockpit spinner (verification builds only).
+func VerifSetFrame(d time.Duration) { frame = d }
